@@ -443,6 +443,18 @@ def evalPolar : Shape → List PPt → List Rat
   | .rot c s a, qs => evalPolar a (qs.map (rotDir c s))
   | s, qs => evalPts s (qs.map toCart)
 
+/-- at the polar point `q` every radius shortcut of `s` (at the rotated point) gives what the
+Cartesian test gives at `toCart q`.  True for exact unit direction vectors and radii ≥ 0; for the
+floats `cos θ`, `sin θ` it can fail within one rounding error of a rim.  Run by the driver for every
+polar request. -/
+def diskAgree : Shape → PPt → Bool
+  | .disk R, q => decide (q.1 ≤ R) == inCircle R 0 0 (toCart q)
+  | .compl a, q => diskAgree a q
+  | .mul a b, q => diskAgree a q && diskAgree b q
+  | .sub a b, q => diskAgree a q && diskAgree b q
+  | .rot c s a, q => diskAgree a (rotDir c s q)
+  | _, _ => true
+
 /-! ## supersampling (`evaluate_supersampled`, separated grids, statistic 'mean') -/
 
 /-- `d = concatenate(([x[1]-x[0]], (x[2:]-x[:-2])/2, [x[-1]-x[-2]]))`; `none` when the axis has
